@@ -293,6 +293,10 @@ func nameProp(t *rapid.T) {
 type markerCase struct {
 	Marker string   `json:"marker"`
 	Extras []string `json:"extras"`
+	// Before: markers of other dependencies the same resolution evaluates first
+	// (variants of Marker in the case or spacing of a literal); the answer for
+	// Marker must not depend on them.
+	Before []string `json:"before,omitempty"`
 }
 
 // libraryEnv reads the library's fixed target environment from its generated
@@ -343,21 +347,27 @@ func envJSON(extra string) string {
 }
 
 // followed reports whether the resolver follows the dependency guarded by the marker.
-func followed(mk string, extras []string) (bool, error) {
+func followed(mk string, extras []string, before ...string) (bool, error) {
 	var sb strings.Builder
 	sb.WriteString("root\n\t1.0.0\n\t\t")
 	if len(extras) > 0 {
 		fmt.Fprintf(&sb, "EnabledDependencies %q|", strings.Join(extras, ","))
 	}
-	sb.WriteString("p@\np\n\t1.0.0\n\t\t")
-	fmt.Fprintf(&sb, "Environment %q|q@\nq\n\t1.0.0\n", mk)
+	sb.WriteString("p@\np\n\t1.0.0\n")
+	for i, b := range before {
+		fmt.Fprintf(&sb, "\t\tEnvironment %q|b%d@\n", b, i)
+	}
+	fmt.Fprintf(&sb, "\t\tEnvironment %q|q@\nq\n\t1.0.0\n", mk)
+	for i := range before {
+		fmt.Fprintf(&sb, "b%d\n\t1.0.0\n", i)
+	}
 	s, err := schema.New(sb.String(), resolve.PyPI)
 	if err != nil {
 		return false, fmt.Errorf("harness: schema rejects the universe: %v", err)
 	}
 	// Sanity: the universe carries the marker verbatim.
 	pk := s.Package("p")
-	if pk == nil || len(pk.Versions) != 1 || len(pk.Versions[0].Requirements) != 1 {
+	if pk == nil || len(pk.Versions) != 1 || len(pk.Versions[0].Requirements) != 1+len(before) {
 		return false, fmt.Errorf("harness: universe malformed")
 	}
 	r := pypiresolve.NewResolver(s.NewClient())
@@ -390,22 +400,63 @@ func refMarker(mk string, extras []string) (want bool, status string, err error)
 	return want, "ok", nil
 }
 
-func checkMarker(mk string, extras []string) (obs, exp, status string, err error) {
-	if strings.ContainsAny(mk, "\n\r|#@") {
+func checkMarker(mk string, extras []string, before ...string) (obs, exp, status string, err error) {
+	if strings.ContainsAny(mk+strings.Join(before, ""), "\n\r|#@") {
 		return "", "", "schema-delimiter", nil
+	}
+	for _, b := range before {
+		// an earlier marker the reference rejects would end the resolution
+		if _, st, err := refMarker(b, extras); err != nil || st != "ok" {
+			return "", "", "earlier-marker-" + st, err
+		}
 	}
 	want, status, err := refMarker(mk, extras)
 	if err != nil || status != "ok" {
 		return "", "", status, err
 	}
-	got, err := followed(mk, extras)
+	got, err := followed(mk, extras, before...)
 	if err != nil {
 		return "", "", "", err
 	}
 	if got != want {
-		return fmt.Sprintf("marker %q with extras %v: dependency followed=%v; packaging evaluates it to %v", mk, extras, got, want), fmt.Sprint(want), "ok", nil
+		after := ""
+		if len(before) > 0 {
+			after = fmt.Sprintf(" (evaluated after %q in the same resolution)", before)
+		}
+		return fmt.Sprintf("marker %q with extras %v%s: dependency followed=%v; packaging evaluates it to %v", mk, extras, after, got, want), fmt.Sprint(want), "ok", nil
 	}
 	return "", "", "ok", nil
+}
+
+var quotedLiteral = regexp.MustCompile(`"[^"]*"|'[^']*'`)
+
+// literalVariant rewrites one string literal of the marker: other letter case,
+// or other spacing inside the literal. The result is a different marker that a
+// case- or space-insensitive reading would confuse with the original.
+func literalVariant(t *rapid.T, mk string) string {
+	locs := quotedLiteral.FindAllStringIndex(mk, -1)
+	if len(locs) == 0 {
+		return mk
+	}
+	l := locs[rapid.IntRange(0, len(locs)-1).Draw(t, "whichlit")]
+	lit := mk[l[0]+1 : l[1]-1]
+	var v string
+	switch rapid.IntRange(0, 3).Draw(t, "variant") {
+	case 0:
+		v = strings.ToUpper(lit)
+	case 1:
+		v = strings.ToLower(lit)
+	case 2:
+		if lit != "" {
+			v = strings.ToUpper(lit[:1]) + lit[1:]
+		}
+	default:
+		v = strings.ReplaceAll(lit, " ", "  ")
+		if v == lit {
+			v = lit + " "
+		}
+	}
+	return mk[:l[0]+1] + v + mk[l[1]-1:]
 }
 
 var prereleaseLiteral = regexp.MustCompile(`["'][0-9.]+(a|b|rc|\.dev)[0-9]*["']`)
@@ -415,9 +466,36 @@ var boundaryLits = regexp.MustCompile(`["'](3\.9|3\.9\.6|3\.10|3|5\.0|6\.9\.10|l
 func markerProp(t *rapid.T) {
 	extras := rapid.SampledFrom([][]string{nil, nil, {"sec"}, {"test"}, {"sec", "test"}, {"other"}}).Draw(t, "extras")
 	mk := gen.Marker(gen.MarkerOpts{Extras: []string{"sec", "test"}, MaxDepth: 3, VarLitOnly: true}).Draw(t, "marker")
-	c := markerCase{mk, extras}
+	var before []string
+	if rapid.IntRange(0, 3).Draw(t, "twin") == 0 {
+		if rapid.Bool().Draw(t, "aligned") {
+			// an atom that compares a variable with its actual value, so that
+			// the case of the literal decides the answer
+			env := libraryEnv()
+			v := rapid.SampledFrom([]string{"platform_system", "sys_platform", "os_name", "platform_machine", "platform_python_implementation", "implementation_name"}).Draw(t, "alignedvar")
+			atom := v + " " + rapid.SampledFrom([]string{"==", "!=", "in", "not in", "=="}).Draw(t, "alignedop") + " \"" + env[v] + "\""
+			switch rapid.IntRange(0, 3).Draw(t, "alignedform") {
+			case 0:
+				mk = atom + " and (" + mk + ")"
+			case 1:
+				mk = "(" + mk + ") or " + atom
+			default:
+				mk = atom
+			}
+		}
+		if tw := literalVariant(t, mk); tw != mk {
+			before = []string{tw}
+			if rapid.Bool().Draw(t, "twinfirst") {
+				mk, before[0] = tw, mk
+			}
+		}
+	}
+	c := markerCase{mk, extras, before}
 	rec.SetCase(c)
-	obs, exp, status, err := checkMarker(mk, extras)
+	obs, exp, status, err := checkMarker(mk, extras, before...)
+	if len(before) > 0 && status == "ok" {
+		rec.Class("after-a-variant-of-itself")
+	}
 	if err != nil {
 		t.Fatalf("harness/oracle failure: %v", err)
 	}
@@ -518,7 +596,7 @@ func TestReplay(t *testing.T) {
 	case "marker":
 		var c markerCase
 		json.Unmarshal(b, &c)
-		if obs, _, _, _ := checkMarker(c.Marker, c.Extras); obs != "" && knownMarkerClass(c.Marker, c.Extras) == "" {
+		if obs, _, _, _ := checkMarker(c.Marker, c.Extras, c.Before...); obs != "" && knownMarkerClass(c.Marker, c.Extras) == "" {
 			t.Fatal("replay fails: " + obs)
 		}
 	case "name":
